@@ -2233,7 +2233,7 @@ func runSlowSlice(rep *vh.Report, env vh.Env) {
 func TestProp(t *testing.T) {
 	env := vh.GetEnv()
 	rep := vh.NewReport("C16", "exploration")
-	rep.Rule("generic: histories of N in 2..16 callers over K in 1..3 keys of singleflight.Group.Do; steered (per key a plan of waves: leader held inside fn until the wave's followers have recorded their call stamp, then released; next wave after all returned or immediately; error waves) and unsteered stress (GOMAXPROCS 2/4/16, spinner goroutines, 1..5 calls per goroutine); every execution has a unique id and [start,end] stamps, every caller [call,return] stamps; distinct = observed interleaving signature (mode + per key the sequence of executions with the number of callers that received each and its error flag). wrappers: per coalesced method of both services, scenarios same-subject (held leader, followers, late-comers; each scripted outcome) / different-subject probes / same string on another endpoint against a scripted inner provider; distinct = service|class|probe|outcomes|calls|executions|merged. e2e: N concurrent browser requests with one cookie whose validation/refresh is due against a fake authenticator holding the answer; distinct = kind|N|authenticator calls|served. adversarial: per coalesced method (wrappers) and for Group.Do (generic) overlapping call pairs on two DIFFERENT subjects / keys that collide under a cheap key derivation (32-bit hash sums found by birthday search at run time, truncation, normalisation, anagram); same descriptors as the wrapper / generic streams with the relation as probe")
+	rep.Rule("generic: histories of N in 2..16 callers over K in 1..3 keys of singleflight.Group.Do; steered (per key a plan of waves: leader held inside fn until the wave's followers have recorded their call stamp, then released; next wave after all returned or immediately; error waves) and unsteered stress (GOMAXPROCS 2/4/16, spinner goroutines, 1..5 calls per goroutine); every execution has a unique id and [start,end] stamps, every caller [call,return] stamps; distinct = observed interleaving signature (mode + per key the sequence of executions with the number of callers that received each and its error flag). wrappers: per coalesced method of both services, scenarios same-subject (held leader, followers, late-comers; each scripted outcome) / different-subject probes / same string on another endpoint against a scripted inner provider; distinct = service|class|probe|outcomes|calls|executions|merged. e2e: N concurrent browser requests with one cookie whose validation/refresh is due against a fake authenticator holding the answer; distinct = kind|N|authenticator calls|served. adversarial: per coalesced method (wrappers) and for Group.Do (generic) overlapping call pairs on two DIFFERENT subjects / keys that collide under a cheap key derivation (32-bit hash sums found by birthday search at run time, truncation, normalisation, anagram); same descriptors as the wrapper / generic streams with the relation as probe. crowded: K in {0..2048 quick, ..65536 thorough} other keys parked inside their fn, then a held leader and 2-6 followers on a fresh key; executions of that key must not overlap, followers confirmed parked in Do get execution 1, the leader is told their number")
 	rep.Assume("stamps come from one atomic counter per history: 'A returned before B called' is decided by stamp order (sound: the stamps are taken after Do returned / before Do is called)")
 	rep.Assume("followers are 'very likely' parked in Do when the leader is released (call stamp recorded + yields + a 20-300us pause); a follower that was not parked executes afresh, which the oracle accepts; the number of merged calls is measured and has a floor")
 	rep.Assume("the inner providers are scripted fakes that mutate the session they are handed the way SSOProvider / OktaProvider do; the middlewares and singleflight are the shipped code")
@@ -2325,6 +2325,7 @@ func TestProp(t *testing.T) {
 		}
 		runtime.GOMAXPROCS(old)
 	}
+	runCrowded(rep, env)
 	rep.Extra("wall_generic_s", time.Since(t0).Seconds())
 
 	// ---- (B) wrappers
